@@ -23,6 +23,10 @@ for q in _q_variants:
 # element identity with move-only elements (seed C04c: a refused node-local push destroyed the element it was asked to hand back)
 for t in ["nik_e1_up_hp", "ram_e1_up_hp", "ms_up_hp"]:
     _c04_quick.append(run("ownership", t, c=2, weight=0.7))
+# three threads, one operation each, empty queue (seed C04d: a push overtaken by two pops in a row needs two poppers or three preemptions)
+for q in _q_variants:
+    _c04_quick.append(run("queues", "%s_hp" % q, c=2, opt={"T": 3, "m": 1, "prefill": 0}, weight=0.6))
+_c04_quick.append(run("queues", "ram_e2p0_ebr", c=2, opt={"T": 3, "m": 1, "prefill": 0}, weight=0.6))
 # sequential sweeps at node sizes 3..32 (several node hand-overs in a row; SCQ cache-line remapping starts at 8 entries)
 _sw_fifo = ["ms_hp", "ram_e4_hp", "ram_e8_ebr", "ram_e3_hp", "nik_e4_hp", "nik_e8_ebr", "nik_e16_hp", "nik_e32_hp"]
 for t in _sw_fifo:
@@ -34,6 +38,8 @@ for q in _q_variants:
     # three threads (two producers + consumer etc.), one operation each, c=2
     for r in ["hp", "ebr", "lfrc"]:
         _c04_thorough.append(run("queues", "%s_%s" % (q, r), c=2, opt={"T": 3, "m": 1, "prefill": 1}, weight=1.0))
+        _c04_thorough.append(run("queues", "%s_%s" % (q, r), c=2, opt={"T": 3, "m": 1, "prefill": 0}, weight=1.0))
+    _c04_thorough.append(run("queues", "%s_lfrc" % q, c=3, opt={"T": 3, "m": 1, "prefill": 0}, weight=4.0))
     # deeper preemption bound on the cheapest reclaimer
     _c04_thorough.append(run("queues", "%s_lfrc" % q, c=3, opt={"prefill": 0}, weight=6.0))
     # one popping entry point throughout (the default alternates try_pop(value_type&) and pop() -> std::optional)
@@ -50,7 +56,7 @@ for q in ["ms", "ram_e1p1", "nik_e1p1"]:
 PLAN["C04"] = {
     "quick": _c04_quick,
     "thorough": _c04_thorough,
-    "budget_s": {"quick": 170, "thorough": 1200},
+    "budget_s": {"quick": 180, "thorough": 1300},
     "rule": "programs: T threads x m operations over {push, try_pop / pop() alternating with the position in the program} (all assignments, thread-symmetric duplicates and pop-free programs pruned), "
             "0/1 prefilled elements, final drain by T0; node sizes entries_per_node 1|2, pop_retries 0|1; oracle: Wing-Gong linearizability against a "
             "sequential FIFO (std::deque-like) + heap lifetime shadow + happens-before race detector + solo-progress monitor",
@@ -262,12 +268,14 @@ _c06_quick = [
     run("kfifo", "kb_boundary", c=0, horizon=16000000, wall=240, opt={"segs": 65537, "fill": 65537, "ops": 70000}),
     run("kfifo", "kb_boundary", c=0, horizon=16000000, wall=240, opt={"segs": 70000, "fill": 3, "ops": 150000}),
 ]
+# extreme constructor arguments (seed C06d: range test on a wrapped product)
+_c06_quick.append(run("kfifo", "kb_ctor", c=0, weight=0.05))
 # sequential sweeps: k 1..5 x segments 1..5, batches of up to 40, three laps; with every start index 0 and with one deviating start index
 _c06_quick += [run("sweep", "kb", c=0, r=0, opt={"maxn": 40, "laps": 3}, weight=0.1), run("sweep", "kf_hp", c=0, r=0, opt={"maxn": 40, "laps": 3}, weight=0.1),
                run("sweep", "kf_ebr", c=0, r=0, opt={"maxn": 40, "laps": 3}, weight=0.1),
                run("sweep", "kb", c=0, r=1, opt={"maxn": 7, "laps": 2, "maxk": 3, "maxsegs": 3}, weight=0.3), run("sweep", "kf_hp", c=0, r=1, opt={"maxn": 7, "laps": 2, "maxk": 3}, weight=0.3)]
 _c06_thorough = [
-    run("kfifo", "kb", c=1, r=1, opt={"k": 2, "segs": 2, "T": 4, "m": 1}, weight=2), run("kfifo", "kf_hp", c=1, opt={"k": 2, "T": 4, "m": 1}, weight=2),
+    run("kfifo", "kb_ctor", c=0, weight=0.05), run("kfifo", "kb", c=1, r=1, opt={"k": 2, "segs": 2, "T": 4, "m": 1}, weight=2), run("kfifo", "kf_hp", c=1, opt={"k": 2, "T": 4, "m": 1}, weight=2),
     run("sweep", "kb", c=0, r=0, opt={"maxn": 100, "laps": 4, "maxk": 7, "maxsegs": 7}, weight=0.3), run("sweep", "kf_hp", c=0, r=0, opt={"maxn": 100, "laps": 4, "maxk": 7}, weight=0.3),
     run("sweep", "kb", c=0, r=1, opt={"maxn": 30, "laps": 2}, weight=2), run("sweep", "kf_hp", c=0, r=1, opt={"maxn": 30, "laps": 2}, weight=2), run("sweep", "kf_ebr", c=0, r=1, opt={"maxn": 20, "laps": 2}, weight=1),
     run("kfifo", "kb", c=3, r=1, opt={"k": 2, "segs": 2, "prefill": 1}, weight=8), run("kfifo", "kb", c=2, r=2, opt={"k": 2, "segs": 2}, weight=3),
